@@ -116,10 +116,15 @@ def observe(H, g, post, rng):
     be = [e for e in edges if rng.random() < 0.5]
     rng.shuffle(be)
 
+    fv = rng.choice([0, 1, 1, 2])
+
     def subviews():
         vn, ve = H.nodes(bn), H.edges(be)
+        # a view restricted to a bunch, filtered by a statistic object that belongs to the full view
         return [[iN(n) for n in bn], [iN(n) for n in vn], _ints(vn.degree.aslist()), [iE(e) for e in be], [iE(e) for e in ve],
-                _ints(ve.size.aslist()), [sorted(iN(x) for x in m) for m in ve.members()], [int(len(vn)), int(len(ve))]]
+                _ints(ve.size.aslist()), [sorted(iN(x) for x in m) for m in ve.members()], [int(len(vn)), int(len(ve))],
+                [fv, [iN(n) for n in vn.filterby(H.nodes.degree, fv, "geq")]],
+                [fv + 1, [iE(e) for e in ve.filterby(H.edges.size, fv + 1, "leq")]]]
     o["sub"] = _try(subviews)
     if o["sub"] is ERR:
         o["sub"] = [[-99]]
